@@ -4,6 +4,7 @@ import (
 	"fmt"
 	"math/big"
 	"strings"
+	"sync/atomic"
 	"time"
 )
 
@@ -31,6 +32,7 @@ type RevProfile struct {
 	RacePanic     bool
 	CachePct      int
 	LatMax        int   // upper bound of latencies in ms (0 = 3000)
+	StaleSigPct   int   // of wrongly signed CRLs: percent that reuse the signature value of an earlier genuine list of the same issuer
 	RepsPct       int   // single-world profiles: percent of runs in which 2..3 callers validate the same chain concurrently, with different signing times
 	KeyW          []int // weights of certificate key kinds (ec256, ec384, rsa2048, ec521, rsa3072); nil = default mix
 	SoakPct       int   // percent of runs that are sequential multi-validation histories over simulated time (shared cache)
@@ -56,7 +58,9 @@ func defaultRevProfile(name string) *RevProfile {
 // World is one certificate chain with all its revocation sources.
 type World struct {
 	ID          int
-	Purpose     int // 0 code signing, 1 timestamping
+	sigMemo     [8]atomic.Pointer[sigMemo] // base world only: last genuine CRL signature value served per issuer position
+	StaleSig    bool                       // the profile plays edited lists carrying an earlier genuine signature value
+	Purpose     int                        // 0 code signing, 1 timestamping
 	Certs       []*CertPlan
 	ChainDefect int
 	Entry       int
@@ -301,6 +305,11 @@ func (p *RevProfile) genCRLPlan(t *Tape, sc *RevScenario, truth int, deviate boo
 	switch dev {
 	case 1:
 		c.SignerKind = []string{"other_ca", "unrelated", "sigflip"}[t.Choose(3)]
+		if p.StaleSigPct > 0 && t.Bool(p.StaleSigPct) {
+			// an edited list that carries the signature VALUE of a genuine
+			// list this issuer published earlier in the run
+			c.SignerKind = "stale_sig"
+		}
 	case 2:
 		c.NextKind = 1 + t.Choose(nNextKinds-1)
 		if p.TimeInvariant {
@@ -454,7 +463,7 @@ func GenRevScenario(t *Tape, p *RevProfile) *RevScenario {
 // URLs, but every source may answer differently than before (the CA revoked or
 // released the certificate, a responder went down, a new CRL was published).
 func (p *RevProfile) cloneWorld(t *Tape, sc *RevScenario, o *World, k int) *World {
-	w := &World{ID: o.ID + k, Purpose: o.Purpose, Entry: o.Entry, HasST: o.HasST, STFrac: o.STFrac, ST: o.ST, CloneOf: o}
+	w := &World{ID: o.ID + k, Purpose: o.Purpose, Entry: o.Entry, HasST: o.HasST, STFrac: o.STFrac, ST: o.ST, CloneOf: o, StaleSig: o.StaleSig}
 	faulty := sc.Config != 0
 	// sometimes the next validation is for a sibling of the leaf: another
 	// certificate of the same CA with the same URLs, whose serial number the
@@ -526,7 +535,7 @@ func (p *RevProfile) cloneWorld(t *Tape, sc *RevScenario, o *World, k int) *Worl
 }
 
 func (p *RevProfile) genWorld(t *Tape, sc *RevScenario, id int) *World {
-	w := &World{ID: id}
+	w := &World{ID: id, StaleSig: p.StaleSigPct > 0}
 	n := 1 + t.Weighted(p.LenW...)
 	if p.TimestampPct > 0 && t.Bool(p.TimestampPct) {
 		w.Purpose = 1
@@ -708,4 +717,9 @@ func (p *RevProfile) genWorld(t *Tape, sc *RevScenario, id int) *World {
 		w.Certs = append(w.Certs, cp)
 	}
 	return w
+}
+
+type sigMemo struct {
+	sig []byte
+	tbs string // hash of the content that signature covers
 }
